@@ -270,3 +270,150 @@ def coq_z(n):
 
 def coq_list(items):
     return '[' + '; '.join(items) + ']'
+
+
+# ------------------------------------------------------------------------------------------
+# structural skeletons
+ATOMIC_METHODS = ['load', 'store', 'swap', 'fetch_add', 'fetch_sub', 'compare_exchange_weak', 'compare_exchange']
+
+
+def norm(s):
+    return re.sub(r'\s+', ' ', s).strip()
+
+
+def skeleton(body, extra_ops=(), aliases=True, keep_question=False):
+    """Ordered list of strings describing the synchronisation-relevant structure of a function
+    body (comments/strings already stripped):  atomic operations with their orderings
+    ("self.generation.load(SeqCst)"), further call patterns given by `extra_ops`
+    (list of (regex, label)), and control markers ("if COND {", "while COND {", "else {", "}")
+    for the blocks that contain at least one of them."""
+    alias = {}
+    if aliases:
+        for m in re.finditer(r'\blet\s+(?:mut\s+)?(\w+)\s*=\s*&\s*(?:mut\s+)?([^;{}]+);', body):
+            alias[m.group(1)] = norm(m.group(2))
+    op_rx = re.compile(r'((?:[A-Za-z_][\w]*)(?:\s*\.\s*\w+|\s*\[[^\]]*\])*)\s*\.\s*(' + '|'.join(ATOMIC_METHODS) + r')\s*\(')
+    kw_rx = re.compile(r'\b(if|while|for|match|loop|else)\b')
+    toks = []   # (kind, text) kind in 'op','open','close'
+    i, n = 0, len(body)
+    extra = [(re.compile(rx), lab) for rx, lab in extra_ops]
+    while i < n:
+        ch = body[i]
+        if ch == '}':
+            toks.append(('close', '}')); i += 1; continue
+        if ch == '{':
+            toks.append(('open', '{')); i += 1; continue
+        if ch == '?' and keep_question:
+            toks.append(('op', '?')); i += 1; continue
+        m = kw_rx.match(body, i)
+        if m and (i == 0 or not (body[i - 1].isalnum() or body[i - 1] == '_')):
+            kw = m.group(1)
+            # find the '{' that opens the block (paren/bracket depth 0)
+            j, depth = m.end(), 0
+            while j < n:
+                c = body[j]
+                if c in '([':
+                    depth += 1
+                elif c in ')]':
+                    depth -= 1
+                elif c == '{' and depth == 0:
+                    break
+                elif c == ';' and depth == 0:
+                    j = -1
+                    break
+                j += 1
+            if j is not None and 0 <= j < n:
+                cond = norm(body[m.end():j])
+                if kw == 'else' and cond.startswith('if'):
+                    # "else if ..." : let the `if` be handled next
+                    toks.append(('else', 'else'))
+                    i = m.end()
+                    continue
+                # ops inside the condition itself (e.g. `while recv(..) > 0`) come first
+                inner = skeleton_ops(body[m.end():j], op_rx, extra, alias)
+                toks.extend(('op', t) for t in inner)
+                toks.append(('open', norm(kw + ' ' + cond) + ' {'))
+                i = j + 1
+                continue
+        m = op_rx.match(body, i)
+        if m and (i == 0 or not (body[i - 1].isalnum() or body[i - 1] in '_.')):
+            close = match_brace(body, m.end() - 1, '(', ')')
+            args = body[m.end():close]
+            ords = re.findall(r'Ordering::(\w+)', args)
+            recv = norm(m.group(1)).replace(' ', '')
+            head = re.match(r'^(\w+)(.*)$', recv)
+            if head and head.group(1) in alias and head.group(1) != 'self':
+                recv = alias[head.group(1)].replace(' ', '') + head.group(2)
+            toks.append(('op', '%s.%s(%s)' % (recv, m.group(2), ','.join(ords))))
+            # nested ops inside the argument list are rare; skip to after '('
+            i = m.end()
+            continue
+        hit = None
+        for rx, lab in extra:
+            mm = rx.match(body, i)
+            if mm and (i == 0 or not (body[i - 1].isalnum() or body[i - 1] == '_')):
+                hit = (mm, lab)
+                break
+        if hit:
+            mm, lab = hit
+            toks.append(('op', mm.expand(lab) if '\\' in lab else lab))
+            i = mm.end()
+            continue
+        i += 1
+    # prune blocks without ops; drop anonymous braces
+    def build(pos):
+        items = []
+        while pos < len(toks):
+            k, t = toks[pos]
+            if k == 'close':
+                return items, pos + 1
+            if k == 'open':
+                sub, pos2 = build(pos + 1)
+                items.append((t, sub))
+                pos = pos2
+            elif k == 'else':
+                items.append(('else', None)); pos += 1
+            else:
+                items.append((t, None)); pos += 1
+        return items, pos
+    tree, _ = build(0)
+
+    def has_op(items):
+        return any((sub is None and t != 'else') or (sub is not None and has_op(sub)) for t, sub in items)
+
+    def flat(items):
+        out = []
+        prev_if_kept = False
+        pending_else = False
+        for t, sub in items:
+            if sub is None:
+                if t == 'else':
+                    pending_else = True
+                    continue
+                out.append(t); prev_if_kept = False; pending_else = False
+            else:
+                if t == '{':
+                    out.extend(flat(sub)); pending_else = False
+                elif has_op(sub):
+                    label = ('else ' + t) if pending_else else t
+                    out.append(label); out.extend(flat(sub)); out.append('}')
+                    pending_else = False
+                else:
+                    pending_else = False
+        return out
+    return flat(tree)
+
+
+def skeleton_ops(text, op_rx, extra, alias):
+    out = []
+    for m in op_rx.finditer(text):
+        close = match_brace(text, m.end() - 1, '(', ')')
+        ords = re.findall(r'Ordering::(\w+)', text[m.end():close])
+        out.append('%s.%s(%s)' % (norm(m.group(1)).replace(' ', ''), m.group(2), ','.join(ords)))
+    for rx, lab in extra:
+        for mm in rx.finditer(text):
+            out.append(mm.expand(lab) if '\\' in lab else lab)
+    return out
+
+
+def coq_string_list(name, items):
+    return 'Definition %s : list string :=\n  %s.' % (name, coq_list([coq_string(x) for x in items]))
